@@ -190,3 +190,19 @@ pub fn run(seed: u64, verif_dir: &PathBuf) -> Result<u64, String> {
     }
     Ok(n)
 }
+
+pub fn hard_table_report() {
+    let t0 = std::time::Instant::now();
+    let t = crate::gen::hard_table();
+    println!("hard table: f32 {} entries, f64 {} entries, built in {:.2}s", t.f32.len(), t.f64.len(), t0.elapsed().as_secs_f64());
+    for (name, tab) in [("f32", &t.f32), ("f64", &t.f64)] {
+        let mut hist = std::collections::BTreeMap::new();
+        for h in tab.iter() {
+            *hist.entry((h.closeness / 8) * 8).or_insert(0u64) += 1;
+        }
+        println!("{name} closeness histogram (log2, bucketed by 8): {:?}", hist);
+        let qs: std::collections::BTreeSet<i32> = tab.iter().map(|h| h.q).collect();
+        println!("{name} distinct q: {} ({}..{})", qs.len(), qs.iter().next().unwrap(), qs.iter().last().unwrap());
+        println!("{name} sample: {:?}", &tab[tab.len() / 2..tab.len() / 2 + 3]);
+    }
+}
